@@ -255,7 +255,7 @@ def check_eventlist(ctx, cname):
                             f'{mname} looks up {list(reader)} but add stores {list(writer)}: membership/removal disagree with the stored set',
                             where=f'{cname}.{mname}')
 
-    r15_observers(ctx, cname, ci, F, ev_index, isF)
+    r15_observers(ctx, cname, ci, F, ev_index, isF, writer)
 
 
 def classify_mutations(a, isF, node):
@@ -494,7 +494,7 @@ def guarded_nonempty(prog, cname, F, g: CFG, node):
     return False
 
 
-def r15_observers(ctx, cname, ci, F, ev_index, isF):
+def r15_observers(ctx, cname, ci, F, ev_index, isF, writer=None):
     prog = ctx.prog
     ctx.rule('R1.5', f'observers of {cname}: size/is_empty/peek_first/pop_first/contains/remove/clear agree with the stored set')
     f = f'self.{F}'
@@ -558,6 +558,34 @@ def r15_observers(ctx, cname, ci, F, ev_index, isF):
             good = False
             ctx.finding('R1.5', f'{cname}.{m}:value', ci, fn, f'{m}() never returns the heap minimum', where=f'{cname}.{m}')
         ctx.ob('R1.5', f'{cname}.{m}', good, sample=f'{cname}.{m} returns {[short(r.value) if r.value is not None else "None" for r in rs]}')
+    # contains / remove by cases of the entry state (E12): empty list / event absent / event first / event at a later position
+    from ..seqsearch import check_observers
+
+    def is_key(e, evn):
+        if e is None:
+            return writer == ('event',)
+        return isinstance(e, ast.Tuple) and writer is not None and tuple(classify_component(prog, x, evn) for x in e.elts) == writer
+    probs, why = check_observers(prog, cname, F, is_key, need('contains'), need('remove')) if writer is not None else (None, 'no key')
+    if probs is not None:
+        for kind in ('contains', 'remove'):
+            ctx.examined()
+            ctx.ob('R1.5', f'{cname}.{kind}', not probs[kind], sample=f'{cname}.{kind}: interpreted for the 4 cases of the entry state (empty / absent / first / later): '
+                   + ('answers and effect as specified' if not probs[kind] else '; '.join(f'{c}: {w}' for c, _d, w in probs[kind])))
+            for (cid, desc, what) in probs[kind]:
+                ctx.finding('R1.5', f'{cname}.{kind}:case-{cid}', ci, need(kind), f'{kind}() when {desc}: {what}', where=f'{cname}.{kind}')
+    else:
+        ctx.note(f'R1.5: {cname}.contains / remove are outside the domain of the case interpreter ({why}); syntactic rule applied')
+        _r15_contains_remove_syntactic(ctx, cname, ci, F, isF, need, returns)
+    # clear
+    fn = need('clear')
+    clears = [n for n in walk_shallow(fn) if (isinstance(n, ast.Call) and isinstance(n.func, ast.Attribute) and isF(n.func.value) and n.func.attr == 'clear')
+              or (isinstance(n, ast.Assign) and any(isF(t) for t in n.targets) and _is_empty_list(n.value))
+              or (isinstance(n, ast.Delete) and any(isinstance(t, ast.Subscript) and isF(t.value) and unparse(t.slice) == ':' for t in n.targets))]
+    _r15_clear(ctx, cname, ci, fn, clears)
+
+
+def _r15_contains_remove_syntactic(ctx, cname, ci, F, isF, need, returns):
+    prog = ctx.prog
     # contains: every return is False under emptiness, or count(key) > 0 / key in F
     fn = need('contains')
     g = CFG(fn)
@@ -702,11 +730,9 @@ def r15_observers(ctx, cname, ci, F, ev_index, isF):
     ctx.ob('R1.5', f'{cname}.remove', good, sample=f'{cname}.remove: True iff removed on every path: {good}')
     if not removers:
         ctx.finding('R1.5', f'{cname}.remove:no-removal', ci, fn, 'remove() never removes from the backing list', where=f'{cname}.remove')
-    # clear
-    fn = need('clear')
-    clears = [n for n in walk_shallow(fn) if (isinstance(n, ast.Call) and isinstance(n.func, ast.Attribute) and isF(n.func.value) and n.func.attr == 'clear')
-              or (isinstance(n, ast.Assign) and any(isF(t) for t in n.targets) and _is_empty_list(n.value))
-              or (isinstance(n, ast.Delete) and any(isinstance(t, ast.Subscript) and isF(t.value) and unparse(t.slice) == ':' for t in n.targets))]
+
+
+def _r15_clear(ctx, cname, ci, fn, clears):
     g = CFG(fn)
     ok = bool(clears) and not g.reaches(g.entry, g.exit, avoid=[g.node_for(c) if isinstance(c, ast.stmt) else _stmt_node(g, c) for c in clears])
     ctx.ob('R1.5', f'{cname}.clear', ok, sample=f'{cname}.clear empties the list on every path: {ok}')
